@@ -512,6 +512,7 @@ def run(ctx):
     import importlib as _il11
     _il11.import_module("rules.c15").const_slot_shared_by_size(db, rep, "D11-CONST-SLOT-BY-SIZE")
     reader_constructors_name_blind(db, rep)
+    d13_set_lookup_stateless(db, rep)
 
     if ctx.tier == "thorough":
         d5(ctx, rep)
@@ -665,3 +666,30 @@ def reader_constructors_name_blind(db, rep, rule="D12-PLACEHOLDER-NAMES"):
                   "it" % (name, unparse(next(a for a in ctors[name].args() if strip_casts(a).k == "StringLiteral")), bad[1].name if bad else "", bad[0].name if bad else "",
                           bad[1].line if bad else "?"), line=bad[1].line if bad else None)
     return len(ctors)
+
+
+def d13_set_lookup_stateless(db, rep, rule="D13-SET-LOOKUP-STATELESS"):
+    """Both directions of the codec number opcodes relative to the table `orc_opcode_set_get ("sys")->opcodes`.  The array of
+    opcode sets is reallocated by every orc_opcode_register_static (an application registering its own set - at any time), so the
+    lookup has to walk the CURRENT array at every call: a lookup that remembers an earlier answer (a function-static or another
+    variable it writes) hands the writer and the reader a pointer into freed memory, and the same program serialises to other
+    bytes before and after a registration."""
+    tu = db.tu("orcopcode")
+    f = tu.fn.get("orc_opcode_set_get")
+    if f is None or f.body is None:
+        raise AnalysisBroken("orc_opcode_set_get not found")
+    users = [g.name for g in db.tu("orcbytecode").main_functions() if any(c.name == "orc_opcode_set_get" for c in g.calls())]
+    if len(users) < 2:
+        raise AnalysisBroken("the bytecode writer and reader no longer both call orc_opcode_set_get (%s)" % users)
+    rep.saw(f)
+    from facts import ASSIGN_OPS
+    statics = sorted({y.name for y in f.walk() if y.k == "DeclRefExpr" and y.get("dk") == "static_local"})
+    written = sorted({(access_path(st.c[0]) or "").split("[")[0].split("->")[0].split(".")[0] for st in f.walk()
+                      if st.k in ("BinaryOperator", "CompoundAssignOperator") and st.op in ASSIGN_OPS and strip_casts(st.c[0]) is not None
+                      and any(y.k == "DeclRefExpr" and y.get("dk") in ("global", "static_local") for y in st.c[0].walk())})
+    bad = statics or written
+    rep.check(not bad, rule, where(f), "orc_opcode_set_get", "the opcode-set lookup keeps no memory of earlier calls",
+              "orc_opcode_set_get %s: the answer of an earlier call is returned after orc_opcode_register_static has reallocated the array of sets - "
+              "orc_bytecode_from_program and orc_bytecode_parse_function (%s) then number opcodes against freed memory" %
+              ("uses the function-static(s) %s" % ", ".join(statics) if statics else "writes %s" % ", ".join(written), ", ".join(users[:3])), line=f.line)
+    return 1
